@@ -306,21 +306,25 @@ func TestSim(t *testing.T) {
 		res.Violations = append(res.Violations, violationOut{Clause: v.Clause, Replay: path, Note: v.Note})
 	}
 
-	// watchdog: a single world that takes more than 30 s of wall time. While a stream is being
+	// watchdog: a single world (C05: a single load) that takes far longer than it ever should. While a stream is being
 	// loaded (C05) that is the property's "terminates" clause; anywhere else it is harness trouble.
 	go func() {
 		for {
 			time.Sleep(time.Second)
-			if s := actStart.Load(); s != 0 && time.Now().UnixNano()-s > int64(30*time.Second) {
+			limit := 180 * time.Second // a whole world; generous, the machine may be busy
+			if prop.ID == "C05" {
+				limit = 60 * time.Second // one load of at most a few KB (normally well under 10 ms)
+			}
+			if s := actStart.Load(); s != 0 && time.Now().UnixNano()-s > int64(limit) {
 				name, _ := actName.Load().(string)
 				if sc := currentCase; sc != nil && prop.ID == "C05" {
 					scc := *sc
 					plan := &Plan{Harness: 1, Property: "C05", World: World{Readers: sc.Readers, Host: HostSpec{Seed: sc.Seed}}, Extra: map[string]any{"case": scc, "index": 0}}
-					addViolation(plan, &Violation{Clause: "C05.hang", OpIndex: -1, Note: "loading did not return within 30 s"})
+					addViolation(plan, &Violation{Clause: "C05.hang", OpIndex: -1, Note: "loading did not return within 60 s"})
 					finish()
 					os.Exit(0)
 				}
-				fmt.Printf("WATCHDOG %s exceeded 30s\n", name)
+				fmt.Printf("WATCHDOG %s exceeded %v\n", name, limit)
 				os.Exit(3)
 			}
 		}
